@@ -4,6 +4,7 @@ from __future__ import annotations
 
 import ast
 
+from ..astutil import inside
 from ..cfg import CFG
 from ..core import AnalysisError, const_value
 from ..defuse import DefUse, Terms, show, walk_term
@@ -109,17 +110,21 @@ def _train_sets(ctx, f):
             inside = any(x is n for x in ast.walk(fil))
             ok = False
             why = ast.unparse(n)[:120]
-            if isinstance(n.op, ast.Add) and isinstance(v, ast.Call) and \
-                    ast.unparse(v.func) == "list" and isinstance(
-                        v.args[0], ast.BinOp) and isinstance(
-                            v.args[0].op, ast.Sub):
-                l, r = v.args[0].left, v.args[0].right
+            # list(S) / sorted(S) / S itself: += consumes any iterable
+            while isinstance(v, ast.Call) and isinstance(
+                    v.func, ast.Name) and v.func.id in (
+                        "list", "sorted", "tuple") and len(v.args) == 1:
+                v = v.args[0]
+            if isinstance(n.op, ast.Add) and isinstance(
+                    v, ast.BinOp) and isinstance(v.op, ast.Sub):
+                l, r = v.left, v.right
                 ok = (inside and idx == fi_var
                       and isinstance(l, ast.Call)
-                      and ast.unparse(l.func) == "set"
+                      and ast.unparse(l.func) in ("set", "frozenset")
                       and isinstance(l.args[0], ast.Call)
                       and ast.unparse(l.args[0].func) == "range"
-                      and ast.unparse(r) == f"set({held_var})")
+                      and ast.unparse(r) in (f"set({held_var})",
+                                             f"frozenset({held_var})"))
                 if not ok:
                     why = (f"train_idx[{idx}] += {ast.unparse(v)[:80]}: "
                            f"expected train_idx[{fi_var}] += list(set("
@@ -308,49 +313,135 @@ def _brew_mapping(ctx, f):
               f"models = {show(mt, 120)}", node=pc[0])
 
 
+def _call_args(prog, T, callee_qual, call):
+    """formal parameter -> term of the actual argument"""
+    cal = prog.func(callee_qual)
+    return {k: T.of(v) for k, v in prog.bind(cal, call).items()}
+
+
+def _is_pop0(t, var=None):
+    """<var>.pop(0) on a (loop-carried) local list"""
+    return (t[0] == "mcall" and t[2] == "pop" and t[3] == (("const", 0),)
+            and not t[4] and t[1][0] == "var"
+            and (var is None or t[1][1] == var))
+
+
+def _plain_comp(t):
+    """(element term, iterable term) of a one-generator comprehension
+    without conditions, else None"""
+    if t[0] == "comp" and len(t[3]) == 1 and not t[3][0][2]:
+        return t[2], t[3][0][1]
+    return None
+
+
 def _predict(ctx, f):
+    """Facts about brew._predict, all read off reconstructed terms (local
+    names, temporaries, loop-versus-comprehension spelling do not matter):
+
+      chunk    = elem(<dataset>.read_data(...)) with ['fold'] := V.pop(0)
+      V        = create_chunks(data=<the collection's model index>, ...)
+      slices   = [get_index_values(chunk, 'fold', i, ORIG) for i in range(n)]
+      datasets = [_create_psms(<dataset>, s, ...) for s in slices]
+      tasks    = predict_fold(model=models[i], fold=i, psms=datasets[i],
+                              scores=FS) for i, _ in enumerate(datasets)
+      scores  += per model, in model order, hstack(FS.pop(0))
+      yield      concatenate(scores)[argsort(sum(ORIG, []))]
+    """
     prog = ctx.prog
     du = DefUse(prog, f)
     T = Terms(du, phi_vars=True)
     cfg = CFG(f.node)
-    # collections zipped with their own model-index vectors
-    ol = [n for n in ast.walk(f.node) if isinstance(n, ast.For)
-          and ast.unparse(n.iter) == "zip(psms, models_idx)"]
-    ctx.require(len(ol) == 1, f"{f.qual}: outer loop not found")
-    # fold label column = next chunk of the model-index vector
-    st = [n for n in ast.walk(f.node) if isinstance(n, ast.Assign)
-          and isinstance(n.targets[0], ast.Subscript)
-          and const_value(n.targets[0].slice) == "fold"]
-    ctx.require(len(st) == 1, f"{f.qual}: fold label assignment not found")
-    ok = ast.unparse(st[0].value) == "model_test_idx.pop(0)"
-    mti = [n for n in ast.walk(f.node) if isinstance(n, ast.Assign)
-           and ast.unparse(n.targets[0]) == "model_test_idx"]
-    ok = ok and len(mti) == 1 and "create_chunks" in ast.unparse(
-        mti[0].value) and f"data={ol[0].target.elts[1].id}" in ast.unparse(
-            mti[0].value).replace(" ", "")
-    ctx.check(ok, "C02b-fold-label-per-chunk", f,
-              "each file chunk is labelled with the next equally sized "
-              "slice of the collection's model-index vector (front to "
-              "back)", f"{ast.unparse(st[0])}; "
-              f"{[ast.unparse(m.value)[:80] for m in mti]}", node=st[0])
-    # slices: get_index_values(chunk, 'fold', i, orig_idx) for i in range(n)
-    sl = [n for n in ast.walk(f.node) if isinstance(n, ast.ListComp)
-          and "get_index_values" in ast.unparse(n.elt)]
-    ctx.require(len(sl) == 1, f"{f.qual}: fold slicing not found")
-    c = sl[0].elt
-    g = sl[0].generators[0]
-    args = [ast.unparse(a) for a in c.args]
-    ok_s = (len(args) == 4 and args[1] == "'fold'"
-            and args[2] == g.target.id
-            and ast.unparse(g.iter) == "range(n_folds)" and not g.ifs)
-    nf = [n for n in ast.walk(f.node) if isinstance(n, ast.Assign)
-          and ast.unparse(n.targets[0]) == "n_folds"]
-    ok_s = ok_s and len(nf) == 1 and ast.unparse(nf[0].value) == \
-        "len(models)"
+    p_idx, p_psms, p_models = f.params[:3]
+    # ---- the prediction task
+    task = [n for n in ast.walk(f.node) if isinstance(n, ast.Call)
+            and isinstance(n.func, ast.Call)
+            and ast.unparse(n.func) == "delayed(predict_fold)"]
+    ctx.require(len(task) == 1, f"{f.qual}: predict_fold task not found")
+    kw = _call_args(prog, T, "mokapot.brew.predict_fold", task[0])
+    pf = prog.func("mokapot.brew.predict_fold")
+    p_model, p_fold, p_pp, p_scores = pf.params
+    t_fold, t_model, t_ps, t_fs = (kw.get(p_fold), kw.get(p_model),
+                                   kw.get(p_pp), kw.get(p_scores))
+    ctx.require(None not in (t_fold, t_model, t_ps, t_fs),
+                f"{f.qual}: predict_fold task misses an argument")
+    # fold = idx(D), psms = elem(D), model = models[idx(D)]
+    ok_t = (t_fold[0] == "idx" and t_ps[0] == "elem"
+            and t_fold[1] == t_ps[1]
+            and t_model == ("sub", ("param", p_models), t_fold))
+    gen = cfg.enclosing(task[0], (ast.GeneratorExp, ast.ListComp))
+    ok_t = ok_t and gen is not None and len(gen.generators) == 1 and \
+        not gen.generators[0].ifs
+    D = t_ps[1] if t_ps[0] == "elem" else None
+    dc = _plain_comp(D) if D else None
+    ok_list = False
+    L = chunk_t = orig_t = None
+    ds_t = None
+    if dc and dc[0][0] == "call" and dc[0][1] == "mokapot.brew._create_psms":
+        cp = prog.func("mokapot.brew._create_psms")
+        ba = dict(zip(cp.params, dc[0][2]))
+        ba.update(dict(dc[0][3]))
+        L = dc[1]
+        ds_t = ba.get(cp.params[0])
+        ok_list = ba.get(cp.params[1]) == ("elem", L)
+    ctx.check(ok_t and ok_list, "C02b-model-i-scores-slot-i", f,
+              "slice i is scored by models[i] and stored under fold i",
+              f"predict_fold(model={show(t_model, 60)}, fold="
+              f"{show(t_fold, 40)}, psms={show(t_ps, 60)}) over "
+              f"{show(D, 80) if D else '?'}", node=task[0])
+    # ---- slices: get_index_values(chunk, 'fold', i, ORIG) for i in range(n)
+    lc = _plain_comp(L) if L else None
+    ok_s = False
+    n_t = None
+    if lc and lc[0][0] == "call" and \
+            lc[0][1] == "mokapot.brew.get_index_values":
+        giv = prog.func("mokapot.brew.get_index_values")
+        ga = dict(zip(giv.params, lc[0][2]))
+        ga.update(dict(lc[0][3]))
+        chunk_t = ga.get(giv.params[0])
+        orig_t = ga.get(giv.params[3])
+        rng = lc[1]
+        if rng[0] == "call" and rng[1] == "builtins.range" and \
+                len(rng[2]) == 1:
+            n_t = rng[2][0]
+            ok_s = (ga.get(giv.params[1]) == ("const", "fold")
+                    and ga.get(giv.params[2]) == ("elem", rng)
+                    and n_t == ("call", "builtins.len",
+                                (("param", p_models),), ()))
     ctx.check(ok_s, "C02b-slot-i-holds-fold-i", f,
               "slot i of the per-chunk slices holds exactly the rows whose "
               "fold label is i, for i in range(number of models)",
-              f"{ast.unparse(sl[0])[:120]}", node=sl[0])
+              f"slices are {show(L, 160) if L else '?'}", node=task[0])
+    # ---- fold label column = next chunk of the model-index vector
+    ok_f = False
+    why = f"chunk frame is {show(chunk_t, 160) if chunk_t else '?'}"
+    if chunk_t and chunk_t[0] == "store" and chunk_t[2] == ("const", "fold"):
+        base, val = chunk_t[1], chunk_t[3]
+        rd = base[1] if base[0] == "elem" else None
+        if rd and rd[0] == "mcall" and rd[2] == "read_data" and \
+                _is_pop0(val):
+            vt = _var_inits(du, T, val[1])
+            cc = [x for x in vt if x[0] == "call"
+                  and x[1] == "mokapot.utils.create_chunks"]
+            if len(vt) == 1 and cc:
+                uc = prog.func("mokapot.utils.create_chunks")
+                ca = dict(zip(uc.params, cc[0][2]))
+                ca.update(dict(cc[0][3]))
+                data_t = ca.get(uc.params[0])
+                size_t = ca.get(uc.params[1])
+                rsize = dict(rd[4]).get("chunk_size")
+                ok_f = (data_t == ("zipelem", 1, (("param", p_psms),
+                                                  ("param", p_idx)))
+                        and rd[1] == ("zipelem", 0, (("param", p_psms),
+                                                     ("param", p_idx)))
+                        and size_t is not None and size_t == rsize
+                        and ds_t == rd[1])
+                why = (f"labels come from create_chunks(data="
+                       f"{show(data_t, 60)}, chunk_size={show(size_t, 60)})"
+                       f"; rows from {show(rd, 100)}")
+    ctx.check(ok_f, "C02b-fold-label-per-chunk", f,
+              "each file chunk is labelled with the next equally sized "
+              "slice of the collection's own model-index vector (front to "
+              "back)", why, node=task[0])
     giv = prog.func("mokapot.brew.get_index_values")
     gd = DefUse(prog, giv)
     gT = Terms(gd)
@@ -368,83 +459,100 @@ def _predict(ctx, f):
               "records their original row numbers under that value",
               f"returns {show(rt, 100)}; records "
               f"{[ast.unparse(a) for a in aug]}", node=giv.node)
-    # prediction task: model i, fold i, slice i
-    task = [n for n in ast.walk(f.node) if isinstance(n, ast.Call)
-            and isinstance(n.func, ast.Call)
-            and ast.unparse(n.func) == "delayed(predict_fold)"]
-    ctx.require(len(task) == 1, f"{f.qual}: predict_fold task not found")
-    kw = {k.arg: ast.unparse(k.value) for k in task[0].keywords}
-    gen = cfg.enclosing(task[0], (ast.GeneratorExp, ast.ListComp))
-    g2 = gen.generators[0]
-    ok_t = False
-    if isinstance(g2.target, ast.Tuple) and ast.unparse(
-            g2.iter.func) == "enumerate":
-        i, el = (x.id for x in g2.target.elts)
-        it_t = T.of(g2.iter.args[0])
-        # the enumerated list is the _create_psms image of the fold slices
-        ok_list = it_t[0] == "comp" and any(
-            x[0] == "call" and x[1] == "mokapot.brew._create_psms"
-            for x in walk_term(it_t[2])) and not it_t[3][0][2]
-        ok_t = (kw.get("model") == f"models[{i}]" and kw.get("fold") == i
-                and kw.get("psms") == el and kw.get("scores") ==
-                "fold_scores" and ok_list and not g2.ifs)
-    ctx.check(ok_t, "C02b-model-i-scores-slot-i", f,
-              "slice i is scored by models[i] and stored under fold i",
-              f"predict_fold({kw}) over {ast.unparse(g2.iter)[:60]}",
-              node=task[0])
-    pf = prog.func("mokapot.brew.predict_fold")
     body = [n for n in ast.walk(pf.node) if isinstance(n, ast.Call)
             and isinstance(n.func, ast.Attribute)
             and n.func.attr == "append"]
-    p_model, p_fold, p_psms, p_scores = pf.params
     ok_p = bool(body) and all(
         ast.unparse(b.func.value) == f"{p_scores}[{p_fold}]" for b in body) \
         and any(ast.unparse(b.args[0]) in (
-            f"{p_model}.predict({p_psms})",
-            f"{p_model}.decision_function({p_psms})") for b in body)
+            f"{p_model}.predict({p_pp})",
+            f"{p_model}.decision_function({p_pp})") for b in body)
     ctx.check(ok_p, "C02b-predict-fold", pf,
               "predict_fold scores its slice with its model and appends to "
               "its own fold's list",
               f"{[ast.unparse(b)[:80] for b in body]}", node=pf.node)
-    # d: fold-major concatenation, un-permuted by argsort of fold-major idx
+    # ---- d: fold-major concatenation, un-permuted by argsort of the
+    # fold-major original row numbers
     ys = [n for n in ast.walk(f.node) if isinstance(n, ast.Yield)]
     ctx.require(len(ys) == 1, f"{f.qual}: yield not found")
-    y = ys[0].value
+    yt = T.of(ys[0].value)
     ok_y = False
-    why = ast.unparse(y)[:100]
-    if isinstance(y, ast.Subscript) and isinstance(y.slice, ast.Name):
-        o = y.slice.id
-        od = [n for n in ast.walk(f.node) if isinstance(n, ast.Assign)
-              and ast.unparse(n.targets[0]) == o
-              and "argsort" in ast.unparse(n.value)]
-        ok_y = (ast.unparse(y.value) == "np.concatenate(scores)"
-                and len(od) == 1 and ast.unparse(od[0].value) in (
-                    f"np.argsort(sum({o}, [])).tolist()",
-                    f"np.argsort(sum({o}, []))"))
+    sc_var = None
+    if yt[0] == "sub":
+        c = np_call(yt[1])
+        o = yt[2]
+        oc = np_call(o)
+        if oc and oc[0] == "tolist":
+            o = oc[1][0]
+            oc = np_call(o)
+        if c and c[0] == "concatenate" and len(c[1]) == 1 and \
+                c[1][0][0] == "var" and oc and oc[0] == "argsort" and \
+                len(oc[1]) == 1 and not oc[2]:
+            sc_var = c[1][0]
+            flat = oc[1][0]
+            ok_y = (flat[0] == "call" and flat[1] == "builtins.sum"
+                    and len(flat[2]) == 2 and flat[2][1] == ("list", ())
+                    and orig_t is not None and flat[2][0] == orig_t)
     ctx.check(ok_y, "C02d-scores-in-input-order", f,
               "scores are concatenated fold-major and un-permuted with "
-              "argsort of the fold-major original row numbers", why,
-              node=ys[0])
-    # scores list is filled once per model in model order, popping fold 0..
-    ml = [n for n in ast.walk(f.node) if isinstance(n, ast.For)
-          and ast.unparse(n.iter) == "models"]
+              "argsort of the fold-major original row numbers (the lists "
+              "get_index_values recorded them in)",
+              f"yields {show(yt, 200)}", node=ys[0])
+    # ---- scores list is filled once per model in model order, popping fold
+    # 0, 1, ... from the front of the per-fold list the tasks wrote to
     ok_m = False
-    if len(ml) == 1:
-        apps = [n for n in ast.walk(ml[0]) if isinstance(n, ast.Call)
-                and ast.unparse(n.func) == "scores.append"]
-        pops = [ast.unparse(n) for n in ast.walk(ml[0])
-                if isinstance(n, ast.Call) and isinstance(
-                    n.func, ast.Attribute) and n.func.attr == "pop"]
-        ok_m = len(apps) >= 1 and all(p in ("fold_scores.pop(0)",
-                                            "targets.pop(0)") for p in pops)
-        # every append consumes exactly one fold_scores.pop(0)
-        ok_m = ok_m and all(ast.unparse(a).count("fold_scores.pop(0)") == 1
-                            for a in apps)
+    why = "scores are not assembled fold by fold in model order"
+    fs_expr = prog.bind(pf, task[0]).get(p_scores)
+    if sc_var is not None and isinstance(fs_expr, ast.Name):
+        apps = [n for n in ast.walk(f.node) if isinstance(n, ast.Call)
+                and isinstance(n.func, ast.Attribute)
+                and n.func.attr == "append" and isinstance(
+                    n.func.value, ast.Name)
+                and T.of(n.func.value)[:2] == sc_var[:2]]
+        ml = {id(lp): lp for a in apps
+              for lp in [cfg.enclosing(a, (ast.For, ast.While))]}
+        # pops of the list the tasks wrote to (same variable, same object)
+        task_defs = {d.uid for d in du.defs_of(fs_expr)}
+        pops = []
+        for n in ast.walk(f.node):
+            if isinstance(n, ast.Call) and isinstance(
+                    n.func, ast.Attribute) and n.func.attr == "pop" and \
+                    isinstance(n.func.value, ast.Name) and \
+                    n.func.value.id == fs_expr.id and task_defs & {
+                        d.uid for d in du.defs_of(n.func.value)}:
+                pops.append(n)
+        fs_name = fs_expr.id
+        if apps and len(ml) == 1 and None not in ml.values():
+            lp = list(ml.values())[0]
+            per = []
+            for a in apps:
+                at = T.of(a.args[0]) if len(a.args) == 1 else ("unknown", "")
+                per.append(sum(1 for x in walk_term(at)
+                               if isinstance(x, tuple) and x
+                               and x[0] == "mcall" and _is_pop0(x, fs_name)))
+            ok_m = (isinstance(lp, ast.For)
+                    and T.of(lp.iter) == ("param", p_models)
+                    and all(k == 1 for k in per) and pops
+                    and all(inside(p_, lp) and len(p_.args) == 1
+                            and const_value(p_.args[0]) == 0 for p_ in pops))
+            why = (f"{len(apps)} append(s) in a loop over "
+                   f"{ast.unparse(getattr(lp, 'iter', lp))[:40]}, each using "
+                   f"{per} front pops of the per-fold score list")
     ctx.check(ok_m, "C02d-fold-major-scores", f,
               "per-fold score blocks are appended in model order, each from "
-              "the front of the per-fold list",
-              "scores are not assembled fold by fold in model order",
-              node=ml[0] if ml else f.node)
+              "the front of the per-fold list", why, node=ys[0])
+
+
+def _var_inits(du, T, var):
+    """Terms of the definitions a ('var', name, uids) stands for, in-place
+    mutations of the same object peeled off."""
+    out = []
+    for d in du.defs:
+        if d.name == var[1] and d.uid in var[2]:
+            if d.kind in ("mut", "store", "augstore", "delitem"):
+                continue
+            out.append(T.of_def(d))
+    return out
 
 
 # ------------------------------------------------------------------ c
